@@ -496,8 +496,9 @@ fn process_tags(
 ) -> Result<Option<BoundingBox>> {
     let mut element_errors: HashMap<OrderIndex, (SvgElement, SvgdxError)> = HashMap::new();
     let remain = &mut Vec::new();
-    // variables in force where each deferred tag stands in the document
-    let mut environments: HashMap<OrderIndex, Vec<Scope>> = HashMap::new();
+    // variables in force, and the element `^` stands for, where each deferred tag stands
+    // in the document
+    let mut environments: HashMap<OrderIndex, (Vec<Scope>, Option<SvgElement>)> = HashMap::new();
 
     // What was known (tags completed here, ids registered / positioned anywhere) when
     // each deferred tag last failed: retrying it before that has changed cannot end
@@ -534,12 +535,17 @@ fn process_tags(
             };
             // a deferred tag is re-evaluated in the environment of its own position,
             // not in what its later siblings have made of it since
-            let later_env = environments
-                .get(&idx)
-                .map(|env| context.swap_environment(env.clone()));
+            let prev_here = context.prev_element_here();
+            let later_env = environments.get(&idx).map(|(env, prev)| {
+                (
+                    context.swap_environment(env.clone()),
+                    context.swap_prev_element(prev.clone()),
+                )
+            });
             let gen_result = t.generate_events(context);
-            if let Some(env) = later_env {
+            if let Some((env, prev)) = later_env {
                 context.swap_environment(env);
+                context.swap_prev_element(prev);
             }
             #[cfg(feature = "verif")]
             crate::verif::tag_result(
@@ -593,7 +599,7 @@ fn process_tags(
                     }
                     environments
                         .entry(idx.clone())
-                        .or_insert_with(|| context.environment());
+                        .or_insert_with(|| (context.environment(), prev_here));
                     knowledge_at_failure.insert(idx.clone(), context.knowledge() + completed);
                     remain.push((idx, t.clone()));
                 }
